@@ -90,6 +90,10 @@ pub open spec fn zero() -> f64 { 0.0f64 }
 #[verifier::external_body] pub fn f64_ne(a: f64, b: f64) -> (r: bool) ensures r == !sp_feq(a, b) { a != b }
 #[verifier::external_body] pub fn f64_ge(a: f64, b: f64) -> (r: bool)
     ensures r == (sp_fcmp(a, b) == Some(Ordering::Greater) || sp_fcmp(a, b) == Some(Ordering::Equal)) { a >= b }
+#[verifier::external_body] pub fn f64_gt(a: f64, b: f64) -> (r: bool) ensures r == (sp_fcmp(a, b) == Some(Ordering::Greater)) { a > b }
+#[verifier::external_body] pub fn f64_lt(a: f64, b: f64) -> (r: bool) ensures r == (sp_fcmp(a, b) == Some(Ordering::Less)) { a < b }
+#[verifier::external_body] pub fn f64_le(a: f64, b: f64) -> (r: bool)
+    ensures r == (sp_fcmp(a, b) == Some(Ordering::Less) || sp_fcmp(a, b) == Some(Ordering::Equal)) { a <= b }
 #[verifier::external_body] pub fn f64_partial_cmp(a: &f64, b: &f64) -> (r: Option<Ordering>) ensures r == sp_fcmp(*a, *b) { a.partial_cmp(b) }
 #[verifier::external_body] pub fn f64_ceil(a: f64) -> (r: f64) ensures r == sp_ceil(a) { a.ceil() }
 #[verifier::external_body] pub fn f64_floor(a: f64) -> (r: f64) ensures r == sp_floor(a) { a.floor() }
